@@ -78,6 +78,10 @@ def run_case(case):
             fam = "NLP"
         gseed = case["seed"] + [k]
         spec = make_spec(fam, gseed)
+        if fam in ("QP", "NLP") and rng.random() < 0.12:
+            # rows without any bound (l = -inf, u = +inf): a slack with infinite bounds
+            spec = make_spec(fam, gseed, row_force=["free", "free"])
+            bump("specs_with_free_rows", int("freerow" in spec.row_kinds()))
         if fam == "BAND" and spec.n > 120:
             spec = make_spec(fam, gseed, n=int(rng.integers(50, 120)))
         fmt = str(rng.choice(["coo", "csr", "csc"]))
@@ -274,7 +278,7 @@ def finalize(agg, tier):
         "floors": {"compared_cons": 500, "compared_cons_jac": 500, "compared_lag_hess": 1000,
                    "compared_initial_iterate": 500, "compared_restore": 500, "scaling_custom": 100,
                    "scaling_GradJac": 50, "scaling_KKT": 50, "scaling_Nominal": 50, "points_with_pattern_switch": 300, "policy_const": 200, "policy_memo": 200,
-                   "jacobian_dtype_bool": 40, "jacobian_dtype_float32": 40, "jacobian_dtype_int64": 40, "float32_vectors": 30, "int64_vectors": 30},
+                   "jacobian_dtype_bool": 40, "jacobian_dtype_float32": 40, "jacobian_dtype_int64": 40, "float32_vectors": 30, "int64_vectors": 30, "specs_with_free_rows": 60},
         "assumptions": ["bit-level oracle: ldexp by integer weights is exact absent over/underflow; cases where the "
                         "scaling over- or underflows are set aside per the statement ('absent overflow')"],
     }
